@@ -203,11 +203,14 @@ def renderResF : ResF → String
 def handle (s : DState) : List String → DState × String
   | ["reset"] => ({ circ := { blocks := [], store := [] } }, "ok")
   | "blk" :: k :: p :: sy :: ex :: lk :: kind =>
-    match hexDecode k, parseBit p, parseBit sy, parseOptInt ex, parseLink lk, parseKind kind with
+    -- the constructor arguments persistent / sync_state / expiration (seconds) as the application writes them
+    match hexDecode k, Val.parse p, Val.parse sy, Val.parse ex, parseLink lk, parseKind kind with
     | some k, some p, some sy, some ex, some lk, some kind =>
       if s.circ.phase != .idle then (s, "bad-op") else
-      ({ circ := { s.circ with blocks := s.circ.blocks ++
-          [{ key := k, kind := kind, persistent := p, sync := sy, expiration := ex, link := lk }] } }, "ok")
+      match mkBlk k kind { persistent := p, syncState := sy, expiration := ex } lk with
+      | .ok b => ({ s with circ := { s.circ with blocks := s.circ.blocks ++ [b] } }, "ok")
+      | .error .type => (s, "err TypeError")
+      | .error (.value _) => (s, "err ValueError")
     | _, _, _, _, _, _ => (s, "bad-op")
   | ["store", st] =>
     match parseStore st with
